@@ -501,6 +501,7 @@ func TestHarness(t *testing.T) {
 		}
 		res.ModelLines = drv.Lines
 		fairFinish(res)
+		treeFinish(res)
 		res.Write(o)
 		return
 	}
@@ -583,5 +584,6 @@ func TestHarness(t *testing.T) {
 	}
 	res.ModelLines = drv.Lines
 	fairFinish(res)
+	treeFinish(res)
 	res.Write(o)
 }
